@@ -44,7 +44,7 @@ CLAIMED = {
  "C17": dict(cat="model_checking", design="§4 C17",
    text="BOUNDED, and only ONE clause of the property (numeric literals): the real Parser::parse_numeric text is executed by CBMC on every string of the tokenizer's NUMERIC "
         "language up to 6 characters (8 thorough): a digit string is the Integer with its base-10 value regardless of leading zeros; a literal with a decimal point or an exponent "
-        "is read as a float. Precedence/associativity, implicit multiplication and function-name mapping (bison LALR tables, std::map of std::function) are NOT covered.",
+        "is read as a float; Parser::parse_implicit_mul on every IMPLICIT_MUL token of that length: the numeric factor is the longest prefix that reads as a number, the other factor the identifier named by the rest. Precedence/associativity and function-name mapping (bison LALR tables, std::map of std::function) are NOT covered.",
    note="Trusted: std::string/strtol (ISO C)/errno/fast_float stubs; the NUMERIC token language transcribed from tokenizer.re; CBMC.",
    tech="contract-based verification with CBMC on mechanically extracted function text: pre/postcondition harness with libc/std::string stubs; bounded model checking (string length) — bounded stand-in for one clause"),
  "C20": dict(cat="proof", design="§4 C20",
